@@ -53,6 +53,9 @@ def ds_op(ctx, struct, op, dim, args=None, attrs_kept=True, under=None):
     elif op in ('ix-scalar', 'isel-scalar', 'ix-keepdims'):
         idx = ctx.choice('p', n)
         present = True
+    elif op == 'take-default-mode':      # meant for under={'indexing.by': 'position'}: the dataset reads the index like its variables do
+        idx = ctx.choice('p', n)
+        present = True
     elif op in ('ix-list',):
         idx = [ctx.choice('p0', n), ctx.choice('p1', n)]
         present = True
@@ -63,8 +66,8 @@ def ds_op(ctx, struct, op, dim, args=None, attrs_kept=True, under=None):
     elif op == 'take_axis_pos':
         idx = [ctx.choice('p0', n), ctx.choice('p1', n)]
         present = True
-    elif op in ('reindex_axis', 'reindex_axis-axisobj', 'reindex_axis-dspos'):
-        qs = [ctx.label(kind, 'q%d' % j) for j in range(args.get('k', 2))]
+    elif op in ('reindex_axis', 'reindex_axis-axisobj', 'reindex_axis-dspos', 'reindex_axis-realq'):
+        qs = [ctx.label(kind if op != 'reindex_axis-realq' else 'f', 'q%d' % j) for j in range(args.get('k', 2))]
         present = True
         idx = list(qs)
         if any(find(L, q) is None for q in qs) and any(dim not in r.dims for r in st['vars'].values()):
@@ -91,7 +94,7 @@ def ds_op(ctx, struct, op, dim, args=None, attrs_kept=True, under=None):
         if op == 'take-scalar' or op == 'take-list':
             t = list(full); t[pos] = idx
             return ds.take(indices=tuple(t))
-        if op == 'take-dict':
+        if op == 'take-dict' or op == 'take-default-mode':
             return ds.take(indices={dim: idx})
         if op == 'take-keepdims':
             return ds.take(indices={dim: idx}, keepdims=True)
@@ -123,7 +126,7 @@ def ds_op(ctx, struct, op, dim, args=None, attrs_kept=True, under=None):
             return ds.take_axis(idx, axis=dim, indexing='position')
         if op == 'sort_axis':
             return ds.sort_axis(axis=dim)
-        if op == 'reindex_axis':
+        if op in ('reindex_axis', 'reindex_axis-realq'):
             return ds.reindex_axis(idx, axis=dim)
         if op == 'interp_axis':
             return ds.interp_axis(idx, axis=dim)
@@ -141,8 +144,10 @@ def ds_op(ctx, struct, op, dim, args=None, attrs_kept=True, under=None):
         raise ValueError(op)
 
     def varf(v):
-        if op in ('take-scalar', 'take-list', 'take-dict', 'take-axisname', 'loc-scalar', 'loc-list', 'sel-scalar'):
+        if op == 'take-default-mode':
             return v.take(idx, axis=dim)
+        if op in ('take-scalar', 'take-list', 'take-dict', 'take-axisname', 'loc-scalar', 'loc-list', 'sel-scalar'):
+            return v.take(idx, axis=dim, indexing='label')
         if op in ('take-keepdims', 'take-keepdims-axis'):
             return v.take(idx, axis=dim, keepdims=True)
         if op == 'ix-keepdims':
@@ -163,7 +168,7 @@ def ds_op(ctx, struct, op, dim, args=None, attrs_kept=True, under=None):
             return v.take_axis(idx, axis=dim, indexing='position')
         if op == 'sort_axis':
             return v.sort_axis(axis=dim)
-        if op == 'reindex_axis':
+        if op in ('reindex_axis', 'reindex_axis-realq'):
             return v.reindex_axis(idx, axis=dim)
         if op == 'interp_axis':
             return v.interp_axis(idx, axis=dim)
@@ -345,6 +350,15 @@ def templates():
     for sname, dim in (('a_x-b_yx', 'x'), ('a_x', 'x')):
         for op in ('interp_axis', 'reindex_axis'):
             add('%s-nan-%s-%s' % (op, sname, dim), 'ds_op', cost=6, struct=sname, op=op, dim=dim, args={'nan': True})
+    for sname, dim in (('a_x-b_yx', 'x'), ('a_xy-b_y-c_0', 'x'), ('a_xw-b_x', 'w')):
+        add('reindex_axis-realq-%s-%s' % (sname, dim), 'ds_op', cost=3, struct=sname, op='reindex_axis-realq', dim=dim)
+    # under indexing.by = 'position': explicit-mode spellings keep their meaning, default-mode calls mean the same for the dataset and its variables
+    POS = {'indexing.by': 'position'}
+    for sname, dim in (('a_x-b_yx', 'x'), ('a_xw-b_x', 'w')):
+        for op in ('take-default-mode', 'loc-scalar', 'sel-scalar', 'isel-scalar', 'reindex_axis', 'sort_axis', 'take_axis_pos', 'interp_axis', 'mean'):
+            if op == 'interp_axis' and dim != 'x':
+                continue
+            add('%s-under-position-%s-%s' % (op, sname, dim), 'ds_op', cost=2, struct=sname, op=op, dim=dim, under=POS)
     for sname in ('a_x', 'a_x-b_yx', 'a_xy-b_y-c_0'):
         for op in ('add', 'sub', 'mul', 'div'):
             for other in ('scalar', 'rscalar', 'dataset', 'dataset-free'):
@@ -359,6 +373,9 @@ def templates():
     add('concatenate_ds-align-a_xy-y', 'ds_join', cost=4, struct='a_xy', how='concat', dim='y', align=True)
     for sname, dim in (('a_x-b_yx', 'x'), ('a_x-b_xy', 'x'), ('a_xy', 'y')):
         add('concatenate_ds-free-%s-%s' % (sname, dim), 'ds_join', cost=3, struct=sname, how='concat', dim=dim, free_other=True)
+    # align=True with two secondary dimensions that both need aligning
+    add('concatenate_ds-align-two-secondary', 'ds_join', cost=20, struct='a_xy-b_xw', how='concat', dim='x', free_other=True, align=True)
+    add('concatenate_ds-align-a_x-b_yx', 'ds_join', cost=8, struct='a_x-b_yx', how='concat', dim='x', free_other=True, align=True)
     for sname, dim in (('a_x', 'x'), ('a_x-b_yx', 'x'), ('a_xy', 'y'), ('a_xy-b_y-c_0', 'y'), ('a_xyz-b_zy-c_x', 'x')):
         add('concatenate_ds-%s-%s' % (sname, dim), 'ds_join', cost=1, struct=sname, how='concat', dim=dim)
     return ts
